@@ -29,7 +29,7 @@ suite() { go build ./... >>$LOG 2>&1 && go test -vet=off -count=1 ./... >>$LOG 2
 # the repository's nclient6 tests are flaky under load ("panic: connection refused" in their own handler): retry once
 if suite || { echo "suite failed once, retrying" >>$LOG; suite; }; then echo "suite passes with patch" >>$LOG; else echo "$ID-$N: SUITE FAILS WITH PATCH"; exit 7; fi
 git checkout -- go.mod go.sum 2>/dev/null
-git diff > $OUT/patch.diff
+git add -A . >/dev/null 2>&1; git diff --cached > $OUT/patch.diff
 cp $DEMO $OUT/
 cp $SRC/notes$N.md $OUT/notes.md 2>/dev/null
 echo "$ID-$N: CONFIRMED (pkg $PKG, tests $TESTS)"
